@@ -103,7 +103,11 @@ pub fn parse_line(line: &str) -> (Vec<String>, BTreeMap<String, String>) {
 }
 
 pub fn silence_panics() {
-    std::panic::set_hook(Box::new(|_| {}));
+    if std::env::var("VERIF_PANIC_MSG").is_ok() {
+        std::panic::set_hook(Box::new(|info| { eprintln!("PANIC: {}", info); }));
+    } else {
+        std::panic::set_hook(Box::new(|_| {}));
+    }
 }
 
 /// run `f`, mapping a panic to the outcome `panic`
@@ -134,4 +138,12 @@ pub fn parse_args(a: &[String]) -> Args {
         }
     }
     r
+}
+
+/// run `f` returning a Result, mapping a panic to Err("panic")
+pub fn guarded_res<T, F: FnOnce() -> Result<T, String>>(f: F) -> Result<T, String> {
+    match catch_unwind(AssertUnwindSafe(f)) {
+        Ok(r) => r,
+        Err(_) => Err("panic".to_string()),
+    }
 }
